@@ -681,6 +681,7 @@ def run(ctx):
         ctx.nontriv(('re', repr(rec['t']), rec['nord'], repr(rec['xs'])))
     nends = 250 if ctx.quick else 2500
     held = {}
+    supplied = set()
     while sum(1 for m in meta if m[0] == 'ends') < nends:
         call = random_ends_call(rng)
         rec = record_ends(call)
@@ -689,11 +690,17 @@ def run(ctx):
         recs.append(rec)
         meta.append(('ends', call, None))
         held[(call['opt'], rec['held'])] = held.get((call['opt'], rec['held']), 0) + 1
+        supplied.add((call['opt'], 'data:' + call['dform']))
+        if call['opt'] in ('bkpt', 'placed'):
+            supplied.add((call['opt'], 'array:' + call['aform']))
         ctx.nontriv(('ends', repr(call)))
+    # the precision in which the object HOLDS its knots is the implementation's business (recorded for information);
+    # the coverage demanded of this run is over what the harness SUPPLIED
     ctx.cov['parts']['recorded-end-probes'] = {'%s/%s' % k: v for k, v in sorted(held.items())}
-    if not any(k[1] == 'float32' for k in held) or not any(k[1] == 'float64' for k in held) \
-            or set(k[0] for k in held) != {'bkpt', 'placed', 'bkspace', 'nbkpts', 'everyn'}:
-        raise core.MachineryError('end probes did not meet every option and both knot precisions: %s' % held)
+    need = set((o, 'data:' + d) for o in ('bkpt', 'placed', 'bkspace', 'nbkpts', 'everyn') for d in ('f8', 'f4')) | \
+        set((o, 'array:' + a) for o in ('bkpt', 'placed') for a in ('f8', 'f4'))
+    if not need <= supplied:
+        raise core.MachineryError('end probes: the harness did not supply %s' % sorted(need - supplied))
     _tick(ctx, 'random calls recorded')
     # one TLC run judges the knots of every object constructed during the replay (laws of the statement)
     # and the recorded random calls
